@@ -428,9 +428,9 @@ def check_case(case):
                         break
         if seqs is not None and "gc" in ref.data.columns:
             _check_gc(ref, seqs, bad)
-        # ---- command-line tier (a quarter of the cases): `cnvkit.py reference` on the same files = do_reference with
+        # ---- command-line tier (half of the cases): `cnvkit.py reference` on the same files = do_reference with
         # the documented mapping of its options (files sorted into targets / antitargets by name, -x, -y, --no-*)
-        if gen.pick(case, "cli", 4) == 0 and not out:
+        if gen.pick(case, "cli", 2) == 0 and not out:
             from vk import cli
 
             cli.use_case(case)
